@@ -126,6 +126,15 @@ func shapes() []*shape {
 			world.Item{Kind: "claim", Claim: "set", PN: 2, Attr: "title", Val: 2, Date: 12, Signer: 1},
 			world.Item{Kind: "delete", Target: 2, Date: 20, Signer: 1},
 			world.Item{Kind: "delete", Target: 5, Date: 30, Signer: 1}),
+		// a permanode deleted, undeleted and deleted again: a chain of three delete claims (after a restart in the
+		// middle the last one lands on a deletes cache that was loaded from rows)
+		mk("redelete", []string{"t"},
+			world.Item{Kind: "key", Signer: 1},
+			world.Item{Kind: "permanode", Signer: 1, Data: "rd"},
+			world.Item{Kind: "claim", Claim: "set", PN: 2, Attr: "title", Val: 1, Date: 10, Signer: 1},
+			world.Item{Kind: "delete", Target: 2, Date: 20, Signer: 1},
+			world.Item{Kind: "delete", Target: 4, Date: 30, Signer: 1},
+			world.Item{Kind: "delete", Target: 5, Date: 40, Signer: 1}),
 	}
 }
 
@@ -218,6 +227,7 @@ func main() {
 	secring := flag.String("secring", "", "test secret key ring")
 	kvKind := flag.String("kv", "memory", "memory | leveldb | kv | sqlite")
 	listShapes := flag.Bool("shapes", false, "print the shapes (sizes) as JSON and exit")
+	listNames := flag.Bool("shapenames", false, "print the shapes' names as JSON and exit")
 	flag.BoolVar(&do05, "do05", true, "record the C05 trace (state after every step)")
 	flag.BoolVar(&do06, "do06", true, "record the C06 trace (live vs reloaded after every step)")
 	scratch := flag.String("scratch", "", "scratch dir")
@@ -225,6 +235,15 @@ func main() {
 	flag.Parse()
 	log.SetOutput(io.Discard)
 	shs := shapes()
+	if *listNames {
+		var nm []string
+		for _, s := range shs {
+			nm = append(nm, s.Name)
+		}
+		b, _ := json.Marshal(nm)
+		fmt.Println(string(b))
+		return
+	}
 	if *listShapes {
 		var sz []int
 		for _, s := range shs {
